@@ -1523,6 +1523,13 @@ def gen_case(r, tag):
             if r.random() < 0.35:
                 ops.append(["ntw", key, ts, gen_value(r, kind)] + gen_stamp())
                 known_keys.append((key, ts, kind))
+                # the value that is there before setup may be a PERSISTENT one (saved by the dashboard, restored from
+                # networktables.json), or carry other topic properties: writeDefault decides all the same
+                x = r.random()
+                if x < 0.4:
+                    ops.append(["ntflag", key, "persistent"])
+                elif x < 0.55:
+                    ops.append(["ntflag", key, r.choice(["retained", "cached"])])
     pending = list(range(ninst))
     r.shuffle(pending)
     nops = r.randrange(6, 28)
@@ -1615,6 +1622,8 @@ def gen_case(r, tag):
             ops.append(["ntw", key, ts, maybe_near(key, gen_value(r, kind))] + gen_stamp())
             if not (len(ops[-1]) > 4 and ops[-1][4] == "older"):
                 note(key, ts, ops[-1][3])
+            if r.random() < 0.08:
+                ops.append(["ntflag", key, r.choice(["persistent", "persistent", "retained", "cached"])])
             if key in readers and r.random() < 0.35:
                 ops.append(["pyr"] + list(r.choice(readers[key])))   # the dashboard changes a value, the component reads it next
         elif k < 0.95 and known_keys:
@@ -1859,6 +1868,12 @@ class OpRunner:
                 import hal.simulation
                 hal.simulation.stepTiming(int(op[1]))
             return ["done"]
+        if op[0] == "ntflag":
+            # a client sets a PROPERTY of the topic (the flags a dashboard offers per entry): "persistent" (ntcore keeps the
+            # value when the publisher goes / saves it), "retained", "cached": none of them is an input of the property
+            t = nt_inst().getTopic(op[1])
+            {"persistent": t.setPersistent, "retained": t.setRetained, "cached": t.setCached}[op[2]](True)
+            return ["done"]
         if op[0] == "ntt":
             t = nt_stamp(op[1])
             return ["stamp", 0 if t == 0 else t - self.base + CLOCK0] if paused else ["any"]
@@ -2087,6 +2102,10 @@ def env_case_to_coq(case, obs):
             ops.append("GX (XOp (NtRead %s))" % cs(op[1]))
         elif op[0] == "truth":
             ops.append("GX (XSetTruth %s %s)" % (coq_nat(op[1]), truth_to_coq(inst_tkind(case, op[1]), op[2])))
+        elif op[0] == "ntflag":
+            if o == ["done"]:
+                continue                             # a topic property: not an input of the model
+            ops.append("GTick 0")
         elif op[0] == "tick":
             ops.append("GTick %s" % coq_Z(op[1]))
         elif op[0] == "ntt":
@@ -2136,6 +2155,8 @@ def case_to_coq(case, obs):
             ops.append("XSetTruth %s %s" % (coq_nat(i), truth_to_coq(tk, truth_initial(tk))))
             pre.append("ODone")
     for op in case["ops"]:
+        if op[0] == "ntflag":
+            continue                                 # a topic property: not an input of the model
         if op[0] == "setup":
             ops.append("XOp (Setup %s c%d %s %s)" % (coq_nat(op[1]), case["insts"][op[1]],
                                                     coq_opt(op[2], coq_string), cs(op[3])))
@@ -2150,7 +2171,7 @@ def case_to_coq(case, obs):
             ops.append("XSetTruth %s %s" % (coq_nat(op[1]), truth_to_coq(tk, op[2])))
         else:
             ops.append("XOp (NtRead %s)" % cs(op[1]))
-    return "(%s(%s, (%s, %s)))" % (lets, guard, coq_list(ops), coq_list(pre + [obs_to_coq(o) for o in obs]))
+    return "(%s(%s, (%s, %s)))" % (lets, guard, coq_list(ops), coq_list(pre + [obs_to_coq(o) for op, o in zip(case["ops"], obs) if op[0] != "ntflag"]))
 
 
 CASES_HEADER = ("From Coq Require Import String List Bool ZArith NArith.\n"
@@ -2212,7 +2233,7 @@ def oracle_case(case, obs):
             return fail("c09-unusable", "class with unsupported tunables %s: %r" % (unsupported, o))
         if o[0] == "bad":
             return fail("c09-unusable", "implementation produced %r" % (o,))
-        if op[0] in ("truth", "tick", "ntt", "new", "clsset"):
+        if op[0] in ("truth", "tick", "ntt", "new", "clsset", "ntflag"):
             continue                                 # the owner's own state, the clock, a timestamp, the class: no clause of C09 involved
         if op[0] in ("pyw", "pyr") and info[n]["state"] != "live":
             continue                                 # not bound / the class attribute was assigned after the setup: the property does not say
@@ -3057,6 +3078,8 @@ def gen_loop_case(r, tag):
     for key, ts, kind, i, a in keys:
         if r.random() < 0.25:
             add(["ntw", key, ts, gen_value(r, kind)], ["pre"])       # the dashboard's value is already there
+            if r.random() < 0.4:
+                add(["ntflag", key, r.choice(["persistent", "persistent", "retained"])], ["pre"])
     for i in range(ncomp):
         add(["setup", i, "components", names[i]], ["init"])
 
